@@ -7,7 +7,7 @@ use std::cmp::min;
 use std::mem::{drop as unlock, swap, take};
 use std::os::fd::{AsRawFd, OwnedFd, RawFd};
 use std::sync::Mutex;
-use std::sync::atomic::{AtomicU32, Ordering};
+use std::sync::atomic::{AtomicBool, AtomicU32, Ordering};
 use std::time::Duration;
 use std::{ptr, task};
 
@@ -81,6 +81,9 @@ pub(crate) struct Shared {
     /// `IORING_SETUP_SINGLE_ISSUER` is enabled.
     single_issuer: bool,
     polling: PollingState,
+    /// Set once the `Ring` (`Completions`) is dropped, after which submissions
+    /// are never submitted to the kernel any more.
+    ring_dropped: AtomicBool,
     /// Futures that are waiting for a slot in submissions.
     blocked_futures: Mutex<Vec<task::Waker>>,
     /// File descriptor of the io_uring.
@@ -134,6 +137,7 @@ impl Shared {
             kernel_thread: (parameters.flags & libc::IORING_SETUP_SQPOLL) != 0,
             single_issuer: (parameters.flags & libc::IORING_SETUP_SINGLE_ISSUER) != 0,
             polling: PollingState::new(),
+            ring_dropped: AtomicBool::new(false),
             blocked_futures: Mutex::new(Vec::new()),
             rfd,
         })
@@ -257,6 +261,17 @@ impl Shared {
 
     fn ring_fd(&self) -> RawFd {
         self.rfd.as_raw_fd()
+    }
+
+    /// Mark the `Ring` as dropped, see [`Shared::is_ring_dropped`].
+    pub(crate) fn set_ring_dropped(&self) {
+        self.ring_dropped.store(true, Ordering::Release);
+    }
+
+    /// Returns true if the `Ring` was dropped, in which case new submissions
+    /// will never be submitted to the kernel.
+    pub(crate) fn is_ring_dropped(&self) -> bool {
+        self.ring_dropped.load(Ordering::Acquire)
     }
 }
 
